@@ -775,3 +775,56 @@ V("C20-getbytes-direct","C20",EN+"get.go","""	err = e.get(addr, func(s *shard.Sh
 		}
 	}
 	return b, err""",rule="C20.R4")
+
+# ---- C25
+PU="pkg/services/object/put/"
+V("C25-count-regardless-of-error","C25",PU+"distributed.go","""		if nr.succeeded = err == nil; nr.succeeded {
+			prog.nodesCounters[listInd].stored++
+		}""","""		nr.succeeded = err == nil
+		prog.nodesCounters[listInd].stored++""",rule="C25.R1")
+V("C25-known-node-counts-always","C25",PU+"distributed.go","""				if nr.succeeded { // in some previous list
+					prog.nodesCounters[listInd].stored++
+					replRem--
+				}""","""				prog.nodesCounters[listInd].stored++
+				replRem--""",rule="C25.R1")
+V("C25-exhausted-before-shortage","C25",PU+"distributed.go","""		listLen := uint(len(nodeList))
+		if listLen-prog.nodesCounters[listInd].processed < minRequired {""","""		listLen := uint(len(nodeList))
+		if prog.nodesCounters[listInd].processed >= listLen {
+			return prog.nodesCounters[listInd].stored, nil
+		}
+		if listLen-prog.nodesCounters[listInd].processed < minRequired {""",rule="C25.R2")
+V("C25-minrequired-unguarded","C25",PU+"distributed.go","""		var minRequired uint
+		if minReps > prog.nodesCounters[listInd].stored {
+			minRequired = minReps - prog.nodesCounters[listInd].stored
+		}""","""		minRequired := minReps - prog.nodesCounters[listInd].stored""",rule="C25.R3")
+V("C25-ec-part-ok-without-node","C25",PU+"ec.go","""		if prog != nil && !prog.canTryNode(i) {
+			continue
+		}
+""","""		if prog != nil && !prog.canTryNode(i) {
+			return nil
+		}
+""",rule="C25.R1")
+V("C25-ec-rule-ignores-part-errors","C25",PU+"ec.go","""	err := eg.Wait()
+	if err != nil {
+		var incompleteErr errIncompletePut
+		if errors.As(err, &incompleteErr) {
+			return prog.finalizeErr(&incompleteErr)
+		}
+
+		return err
+	}""","""	err := eg.Wait()
+	if err != nil {
+		var incompleteErr errIncompletePut
+		if errors.As(err, &incompleteErr) {
+			return prog.finalizeErr(&incompleteErr)
+		}
+	}""",rule="C25.R2")
+V("C25-min-one-when-uncapped","C25",PU+"distributed.go","			minReps, maxReps = repRules[ruleIdx], repRules[ruleIdx]","			minReps, maxReps = 1, repRules[ruleIdx]",rule="C25.R4")
+V("C25-meta-error-dropped","C25",PU+"distributed.go","""	err = t.submitMetaCollection(obj)
+	if err != nil {
+		return err
+	}
+
+	if initial {""","""	_ = t.submitMetaCollection(obj)
+
+	if initial {""",rule="C25.R6")
